@@ -292,7 +292,8 @@ def write_evidence(mod, ctx, wall, n_viol):
         "known_findings_hit": dict(ctx.known_hits),
     }
     if ctx.exhaustive:
-        cov["exhaustive"] = all(ctx.exhaustive.values())
+        if getattr(mod, "EXHAUSTIVE", False):
+            cov["exhaustive"] = all(ctx.exhaustive.values())
         cov["exhaustive_parts"] = ctx.exhaustive
     cov.update(ctx.extra)
     if ctx.notes:
